@@ -38,6 +38,19 @@ Menu ==
     [Base EXCEPT !.k = "acmeta", !.addr = "c", !.meta = M1],
     [Base EXCEPT !.k = "unacmeta", !.addr = "a", !.key = "k"] }
 
+\* requests written as scripts: metadata set by the script itself (a key set by both sides is refused,
+\* request account metadata wins key by key), and an account variable whose value is malformed
+SBase == [k |-> "create", ps |-> <<>>, ts |-> 0, ref |-> "", meta |-> NoMeta, ameta |-> NoMeta,
+          ik |-> "", ikin |-> 0, dry |-> FALSE, now |-> 0,
+          id |-> 0, force |-> FALSE, atEff |-> FALSE, addr |-> "", key |-> "",
+          script |-> TRUE, smeta |-> NoMeta, sameta |-> NoMeta, vard |-> "", varok |-> FALSE]
+M3 == [k \in {"r"} |-> "x"]
+ScriptMenu ==
+  { [SBase EXCEPT !.ps = <<P(World, "a", "USD", 1, 0)>>, !.meta = M1, !.smeta = M2],
+    [SBase EXCEPT !.ps = <<P(World, "b", "USD", 1, 0)>>, !.meta = M1, !.smeta = M3,
+                  !.ameta = [x \in {"c"} |-> M1], !.sameta = [x \in {"c", "b"} |-> M2], !.ik = "i", !.ikin = 3],
+    [SBase EXCEPT !.ps = <<P(World, "b", "USD", 1, 0)>>, !.vard = "b ", !.varok = FALSE] }
+
 Init ==
   /\ ls = EmptyLedger /\ iks = [x \in {} |-> 0] /\ now = 1 /\ nTx = 1 /\ nLog = 1 /\ n = 0 /\ h = <<>>
 
@@ -58,7 +71,7 @@ Do(op0) ==
        /\ n' = n + 1
        /\ h' = IF Emit THEN Append(h, [op |-> op, ok |-> r.ok, err |-> r.err, hit |-> r.hit]) ELSE h
 
-Next == \E op \in Menu : Do(op)
+Next == (\E op \in Menu : Do(op)) \/ (\E op \in ScriptMenu : Do(op))
 
 Spec == Init /\ [][Next]_vars
 
